@@ -63,6 +63,7 @@ class Arbiter:
         self.reexec_pid = 0
         self.master_pid = 0
         self.master_name = "Master"
+        self.halting = False
 
         cwd = util.getcwd()
 
@@ -340,6 +341,9 @@ class Arbiter:
 
     def halt(self, reason=None, exit_status=0):
         """ halt arbiter """
+        # from here on a worker that failed to boot is no news: reap_workers()
+        # must not raise HaltServer again from the SIGCHLD handler
+        self.halting = True
         self.stop()
 
         log_func = self.log.info if exit_status == 0 else self.log.error
@@ -526,10 +530,10 @@ class Arbiter:
                     exitcode = status >> 8
                     if exitcode != 0:
                         self.log.error('Worker (pid:%s) exited with code %s', wpid, exitcode)
-                    if exitcode == self.WORKER_BOOT_ERROR:
+                    if exitcode == self.WORKER_BOOT_ERROR and not self.halting:
                         reason = "Worker failed to boot."
                         raise HaltServer(reason, self.WORKER_BOOT_ERROR)
-                    if exitcode == self.APP_LOAD_ERROR:
+                    if exitcode == self.APP_LOAD_ERROR and not self.halting:
                         reason = "App failed to load."
                         raise HaltServer(reason, self.APP_LOAD_ERROR)
 
